@@ -4,6 +4,9 @@ import Holpy.C16.SimplexCheck3
 import Holpy.C16.SimplexHandle
 import Holpy.C16.SimplexRun
 import Holpy.C16.SimplexFuel
+import Holpy.C16.SimplexTermination
+import Holpy.C16.SimplexTrajectory
+import Holpy.C16.SimplexBland
 import Holpy.C16.SimplexBBProofs
 /-
 C16 — property theorems about the model of `prover/simplex.py` (`Simplex`).  The model
@@ -203,5 +206,95 @@ theorem check_fuel_independent (n k : Nat) (s : SState) (h : (check n s).1 ≠ .
 example : (check 5 exampleSat).1 ≠ .fuel := by
   intro h; have : ((check 5 exampleSat).1 == Verdict.fuel) = false := by decide
   rw [h] at this; exact absurd this (by decide)
+
+/-- `check()` is the iteration of one explicit repair step `step` (pick the smallest violated basic
+variable, pivot with the smallest suitable non-basic one): `check (n+1)` does one step and continues with fuel `n`. -/
+theorem check_unfolds_step (n : Nat) (s : SState) : check (n + 1) s =
+    match step s with
+    | .sat => (.sat, s)
+    | .unsat xi => (.unsat xi, s)
+    | .next s' => check n s' :=
+  check_succ n s
+
+/-- **No repeat ⇒ terminates.**  The configuration of a state says, for every variable of the tableau,
+whether it is basic or at which bound it sits (`code`: basic / on its lower bound / on its upper bound /
+elsewhere); there are at most `confBound s = 4 ^ #variable-occurrences` of them.  If no configuration
+occurs twice along the run of `check` from `s`, then `check` answers within `confBound s + 1` steps. -/
+theorem check_terminates_of_no_repeat (s : SState) (h : NoRepeat s) : (check (confBound s + 1) s).1 ≠ .fuel :=
+  check_terminates_of_no_repeat_aux s h
+
+/-- THE remaining hypothesis about termination: under Bland's rule (fix C16-5, as modelled by `step`)
+no configuration repeats along a run of `check` from a state that satisfies the tableau invariant.
+(Dutertre–de Moura, CAV 2006: the largest variable that both enters and leaves the basis in a
+cycle yields a sign contradiction.)  NOT proved in Lean. -/
+def BlandNoRepeat : Prop := ∀ s : SState, Inv s → NoRepeat s
+
+/-- PARTIAL (exactly one statement is assumed: `BlandNoRepeat`): `check` terminates on every state
+satisfying the tableau invariant, within the explicit bound `confBound s + 1`; with
+`check_fuel_independent` every larger fuel gives the same answer, so under this hypothesis all simplex
+theorems hold without any fuel proviso. -/
+theorem check_terminates_bland_partial (hb : BlandNoRepeat) (s : SState) (hinv : Inv s) :
+    (check (confBound s + 1) s).1 ≠ .fuel ∧ ∀ k, check (confBound s + 1 + k) s = check (confBound s + 1) s :=
+  ⟨check_terminates_of_no_repeat s (hb s hinv), fun k => check_fuel_mono _ k s (check_terminates_of_no_repeat s (hb s hinv))⟩
+
+-- on the example tableau with `s0 ≥ 1`: one repair step, then SAT; the two configurations differ, so `NoRepeat` holds
+example : (traj exampleSat 1).isSome = true ∧ (traj exampleSat 2).isNone = true ∧ confBound exampleSat = 4 ^ 6 := by decide +kernel
+
+example : NoRepeat exampleSat := by
+  intro i j a b hij ha hb
+  have h2 : traj exampleSat 2 = none := by
+    have : (traj exampleSat 2).isNone = true := by decide +kernel
+    simpa using this
+  have hj : j < 2 := by
+    by_contra hge
+    rw [traj_none_of_le exampleSat 2 j (by omega) h2] at hb; cases hb
+  have hi0 : i = 0 := by omega
+  have hj1 : j = 1 := by omega
+  subst hi0; subst hj1
+  simp only [traj] at ha
+  cases ha
+  intro heq
+  have h1 := congrFun heq ⟨0, by decide⟩
+  have e : (allVars exampleSat).get ⟨0, by decide⟩ = 0 := by decide
+  simp only [conf, e] at h1
+  -- variable 0 (the slack) is basic before the step and non-basic after it
+  have hc0 : code exampleSat 0 = 0 := by decide
+  have : (traj exampleSat 1).map (fun t => decide (code t 0 = 0)) = some false := by decide +kernel
+  rw [hb] at this
+  simp only [Option.map_some, Option.some.injEq, decide_eq_false_iff_not] at this
+  exact this (by rw [← h1]; exact hc0)
+
+/-- Every state along a run of `check()` satisfies the tableau invariant and has the bounds and the
+row solutions of the state the run started from (an ingredient of the missing no-repeat argument). -/
+theorem traj_preserves_inv (k : Nat) (s a : SState) (hinv : Inv s) (h : traj s k = some a) :
+    Inv a ∧ a.lo = s.lo ∧ a.hi = s.hi ∧ ∀ w, RowsHold a.rows w ↔ RowsHold s.rows w :=
+  traj_preserves k s a hinv h
+
+/-- One repair step of `check()`: the leaving variable was basic and is put on the bound it violated,
+the entering variable was non-basic, and no other non-basic variable changes its value. -/
+theorem step_changes_only_entering (s s' : SState) (hinv : Inv s) (h : step s = .next s') :
+    ∃ xi xj v, isBasic s xi = true ∧ isBasic s xj = false ∧ s'.mapping xi = v ∧
+      (s.lo xi = some v ∨ s.hi xi = some v) ∧
+      ∀ y, y ≠ xi → y ≠ xj → isBasic s y = false → s'.mapping y = s.mapping y :=
+  step_values s s' hinv h
+
+/-- PARTIAL case of `BlandNoRepeat` (distance one): a repair step always changes the configuration —
+the leaving variable is basic before and non-basic after.  The general statement (no configuration
+repeats at ANY distance along the run) is the one hypothesis that remains unproved. -/
+theorem bland_no_repeat_adjacent_partial (s s' : SState) (hinv : Inv s) (h : step s = .next s') :
+    conf (allVars s) s ≠ conf (allVars s) s' :=
+  step_changes_conf s s' hinv h
+
+example : (match step exampleSat with | .next _ => true | _ => false) = true := by decide +kernel
+
+/-- Bland's rule, leaving side, as modelled (fix C16-5): the variable `check()` repairs is the
+smallest violated basic variable — every smaller basic variable is within its bounds.  (The entering
+side is `find_sorted_min`: the first suitable element of the row sorted by variable.)  Ingredient of
+the missing no-repeat argument. -/
+theorem bland_leaving_is_smallest (s : SState) (xi : Var) (h : pickViolated s = some xi) :
+    ∀ x, isBasic s x = true → x < xi → ltLo s x = false ∧ gtHi s x = false :=
+  pickViolated_min s xi h
+
+example : pickViolated exampleSat = some 0 := by decide +kernel
 
 end Holpy.C16
